@@ -14,6 +14,16 @@ CLAIMED = {
          "Go regexp (modelled by a hand scanner, validated exhaustively to length 8–9 over the alphabet)"),
  "C11": ("layout, round trip within ±999,999,999 years, strictness (three error cases), decodes only real dates",
          "—"),
+ "C02": ("tables_are_forms (generated digit tables and long-form overrides are the specification's forms for every flag set), format_canonical, parse_format and valid for every n < 2^64, every flag value, every limit/rule, round trip along every fmt verb (verb table generated)",
+         "MarshalText/String delegation through the global Formatter variable (one-line methods, exercised by the harness)"),
+ "C06": ("compare_is_spec: the comparator equals an independent statement of SemVer §11 on all versions outside the excluded region (validity not needed); the excluded region is exactly the property's; the specification's example chain in both spec and model; entry points = parse then compare",
+         "Go regexp used by Valid/isNumeric (modelled by predicates, validated by correspondence)"),
+ "C10": ("accepts_iff: acceptance ⇔ limit ∧ (empty ∧ rule) ∨ upper-cased text = M^k ++ three group forms, value = sum mod 2^64 (no mod needed below 2^54 bytes); case_invariant; valid_iff_parse; error classes; no panic",
+         "Go regexp incl. (?i) Unicode folding (modelled by a hand scanner; 256-value foreign-byte and look-alike rune sweeps in the harness)"),
+ "C13": ("shorten_exact_maximal (value·1024^k = size, unit is the k-th binary unit, no larger unit divides, zero ↦ 0 B; mask/shift/unit list generated), plain and pretty renderings characterised digit by digit (a separator after exactly the digits with a multiple of three digits to their right, one before the unit, nothing else)",
+         "—"),
+ "C14": ("range, reflexivity, antisymmetry, build-irrelevance, equal-core-pre ⇒ 0, latest_choice for ALL versions (arbitrary field bytes), string helpers = parse-then-compare with the documented error precedence, Next* plain release strictly above, panic ⇔ 2^64−1",
+         "transitivity is not claimed by the property (and fails inside C06's excluded region: a01 < a0x < a1, a01 = a1)"),
  "C15": ("construction error ⇔ both bounds ∧ from after to; membership ⇔ inclusive day-number interval for the five filter shapes",
          "caller-variable mutation after construction (copy semantics; harness mutates the variables on every filter op)"),
 }
